@@ -184,6 +184,13 @@ class RunClass(Run):
         self.seeded = False
         self.aux = None
         self.distinct = set()
+        self.init_exc = None
+        try:
+            self._prepare(cfg)
+        except Exception as e:   # a sampler that raises while the block is set up is judged at the first draw
+            self.init_exc = e
+
+    def _prepare(self, cfg):
         s = cfg["sampler"]
         n = self.n
         pc = self.pc
@@ -251,6 +258,8 @@ class RunClass(Run):
     def apply(self, op):
         cfg = self.cfg
         s, n = cfg["sampler"], self.n
+        if self.init_exc is not None:
+            raise Violation("c16.sampler_raised", {"sampler": s, "n": n, "exc": repr(self.init_exc), "while": "setting up the block"})
         if op.get("reseed", True) or not self.seeded:
             # (a stream whose first draws were removed by the shrinker starts at this op)
             seams.seed_all(op["entropy"])
